@@ -20,7 +20,7 @@ func init() { register(&profile{id: "C06", num: 6, name: "robust-parse", run: ru
 
 // coreWorlds are the hand-written worlds; miniWorlds port the grammar shapes of the repository's
 // own parser tests; exampleWorlds port the grammars under _examples.
-var coreWorlds = []*world{worldIni, worldExpr, worldHeredoc, worldBasic, worldConformance, worldCallbacks, worldDurations, worldMisc, worldTuple, worldLines, worldDashed, worldTokcap, worldNotes}
+var coreWorlds = []*world{worldIni, worldExpr, worldHeredoc, worldBasic, worldConformance, worldCallbacks, worldDurations, worldMisc, worldTuple, worldLines, worldDashed, worldTokcap, worldNotes, worldAnon}
 
 var robustWorlds = append(append(append(append([]*world{}, coreWorlds...), miniWorlds...), exampleWorlds...), exampleWorlds2...)
 
@@ -263,7 +263,7 @@ func robustOne(rc *RunCtx) *Violation {
 			}
 		}
 		// clause 3: well-formed located error
-		foreign := (plan != nil && plan.foreign) || (lexed.Err != nil && lexForeign)
+		foreign := (plan != nil && plan.foreign) || (lexed.Err != nil && lexForeign) || (dc.foreignErr && strings.Contains(safeError(res.Err), "sim: shape"))
 		if foreign {
 			rc.probe("foreign callback error injected (clause 3 not applied)")
 			errType = fmt.Sprintf("%T", res.Err)
